@@ -209,7 +209,7 @@ def rw_unit(kind, T, framesv, ch, tier):
     return {"name": "sndfile.%s.ch%d" % (fn, ch), "props": props, "harness_text": text,
             "template": "units/gen_sndfile.py", "entry": "h_unit", "enforce": fn, "function": "sndfile.c:" + fn,
             "replace": ["psf_memset", "psf_file_valid"], "timeout": 600, "tier": tier,
-            "kind": "enumerated(channels=%d)" % ch, "defines": [],
+            "kind": "enumerated(channels=%d)" % ch, "defines": [], "cbmc_flags": ["--object-bits", "12"],
             "replay_driver": "sndfile_rw.c",
             "replay_defines": ["-DFN=%s" % fn, "-DT=%s" % T, "-DCH=%d" % ch, "-DKIND_%s" % kind.upper(),
                                "-DFRAMESV=%d" % (1 if framesv else 0)],
